@@ -29,6 +29,7 @@ type RunConfig struct {
 	DumpMax   int
 	Deadline  time.Time
 	Verbose   bool
+	NontermIsViolation bool // hitting MaxSteps on a path is reported as a violation (termination obligation)
 }
 
 type RunResult struct {
@@ -237,6 +238,21 @@ func runPath(cfg *RunConfig, solver *Solver, prefix []Decision, q *workQueue, st
 		switch r := r.(type) {
 		case pathAbort:
 			st.Aborted[r.reason]++
+			if r.reason == "limit:steps" && cfg.NontermIsViolation {
+				// the entry declares its instruction budget to be the termination obligation
+				label := "nontermination@" + r.detail
+				st.Obligations++
+				st.AssertLabels[label]++
+				v := &Violation{Label: label, Kind: "nontermination", Detail: fmt.Sprintf("more than %d SSA instructions on one path (still running in %s)", cfg.Lim.MaxSteps, r.detail), Path: ps.traceString()}
+				if solver != nil {
+					if res := ps.query(ctx.Bool(true)); res == Sat {
+						v.Inputs, v.Model = ps.model()
+					}
+					ps.endQuery()
+				}
+				st.Violations = append(st.Violations, v)
+				return
+			}
 			if strings.HasPrefix(r.reason, "limit:") {
 				st.Inconclusive = append(st.Inconclusive, fmt.Sprintf("%s (%s) on path [%s]", r.reason, r.detail, clip(ps.traceString(), 200)))
 			}
